@@ -592,3 +592,181 @@ def distribution(cases, obs):
     for c in cases:
         kinds[c["kind"]] = kinds.get(c["kind"], 0) + 1
     return {"kinds": kinds}
+
+
+# --------------------------------------------------------------------------- real-kernel run (extra)
+
+def _sock_fds():
+    import os
+    n = 0
+    for f in os.listdir("/proc/self/fd"):
+        try:
+            if os.readlink(f"/proc/self/fd/{f}").startswith("socket:"):
+                n += 1
+        except OSError:
+            pass
+    return n
+
+
+def _free_port():
+    s = _socket.socket(_socket.AF_INET, _socket.SOCK_STREAM)
+    s.bind(("127.0.0.1", 0))
+    p = s.getsockname()[1]
+    s.close()
+    return p
+
+
+def _real_round(tls, rng):
+    """One scenario over real loopback sockets.  Every socket object the server ever held is kept
+    referenced (so CPython's finaliser cannot hide a missing close()); returns None or a failure text."""
+    import time
+    from hio.core.tcp import serving
+    before = _sock_fds()
+    port = _free_port()
+    kw = dict(host="127.0.0.1", port=port)
+    srv = serving.ServerTls(certify=_ssl.CERT_NONE, **kw) if tls else serving.Server(**kw)
+    kept, clients = {}, []
+
+    def keep():
+        for d in ([srv.ixes] + ([srv.cxes] if tls else [])):
+            for rm in d.values():
+                if rm.cs is not None:
+                    kept[id(rm.cs)] = rm.cs
+
+    def service(n=3):
+        for _ in range(n):
+            srv.serviceConnects()
+            keep()
+            time.sleep(0.002)
+
+    def connect(lport=None):
+        c = _socket.socket(_socket.AF_INET, _socket.SOCK_STREAM)
+        c.setsockopt(_socket.SOL_SOCKET, _socket.SO_REUSEADDR, 1)
+        if lport:
+            c.bind(("127.0.0.1", lport))
+        c.connect(("127.0.0.1", port))
+        clients.append(c)
+        return c
+
+    try:
+        if not srv.reopen():
+            return "skip: cannot bind"
+        n_plain = rng.randint(1, 3)
+        for _ in range(n_plain):
+            connect()
+        service()
+        # a client on a fixed local port resets its connection and connects again from the same address
+        lport = _free_port()
+        replaced = 0
+        for _ in range(rng.randint(1, 3)):
+            c = connect(lport)
+            service()
+            c.setsockopt(_socket.SOL_SOCKET, _socket.SO_LINGER, __import__("struct").pack("ii", 1, 0))
+            c.close()
+            clients.remove(c)
+            time.sleep(0.005)
+            replaced += 1
+        c = connect(lport)
+        service()
+        held_before_close = len(kept)
+        if rng.random() < 0.5:
+            srv.reopen(); service(1)
+        srv.close()
+        not_closed = [s for s in kept.values() if s.fileno() != -1]
+        for c in clients:
+            c.close()
+        clients.clear()
+        after = _sock_fds()
+        if not_closed:
+            return (f"{'TLS' if tls else 'plain'} server over loopback: {len(not_closed)} of {held_before_close} sockets "
+                    f"the server held were never closed (fileno still valid after close)")
+        if after != before:
+            return f"{'TLS' if tls else 'plain'} server over loopback: {after - before} socket descriptor(s) still open after close"
+        if held_before_close < n_plain + 2:
+            return f"skip: only {held_before_close} connections were seen"
+        return None
+    finally:
+        for c in clients:
+            try:
+                c.close()
+            except OSError:
+                pass
+        for s in kept.values():
+            try:
+                s.close()
+            except OSError:
+                pass
+        try:
+            srv.close()
+        except Exception:
+            pass
+
+
+def _real_client_round(rng):
+    """Client against a listening and a refusing port: reopen/refused-reconnect never leaves a socket behind."""
+    from hio.core.tcp import clienting
+    before = _sock_fds()
+    dead = _free_port()
+    cli = clienting.Client(host="127.0.0.1", port=dead)
+    seen = {}
+    try:
+        cli.reopen()
+        for _ in range(rng.randint(3, 8)):
+            if cli.cs is not None:
+                seen[id(cli.cs)] = cli.cs
+            r = rng.random()
+            if r < 0.6:
+                cli.accept()          # refused -> reopen
+            elif r < 0.8:
+                cli.reopen()
+            else:
+                cli.close()
+            if cli.cs is not None:
+                seen[id(cli.cs)] = cli.cs
+            opened = [s for s in seen.values() if s.fileno() != -1]
+            if len(opened) > 1:
+                return f"client over loopback holds {len(opened)} open sockets"
+        cli.close()
+        left = [s for s in seen.values() if s.fileno() != -1]
+        if left:
+            return f"client over loopback: {len(left)} sockets still open after close"
+        if _sock_fds() != before:
+            return "client over loopback: descriptor count differs after close"
+        return None
+    finally:
+        for s in seen.values():
+            try:
+                s.close()
+            except OSError:
+                pass
+
+
+def extra(tier, ctx):
+    import random
+    rng = random.Random(ctx.seed * 7919 + 11)
+    rounds = 4 if tier == "quick" else 60
+    done = skipped = 0
+    for i in range(rounds):
+        for tls in (False, True):
+            try:
+                why = _real_round(tls, rng)
+            except Exception as ex:   # environment trouble is not a verdict
+                ctx.notes.append(f"real-kernel round raised {type(ex).__name__}: {ex}")
+                skipped += 1
+                continue
+            if why is None:
+                done += 1
+            elif why.startswith("skip"):
+                skipped += 1
+            else:
+                ctx.violations.append({"kind": "real-kernel", "why": why, "case": {"tls": tls, "round": i}})
+                return {"real_kernel_rounds": done, "real_kernel_skipped": skipped}
+        try:
+            why = _real_client_round(rng)
+        except Exception as ex:
+            ctx.notes.append(f"real-kernel client round raised {type(ex).__name__}: {ex}")
+            why = "skip"
+        if why and not why.startswith("skip"):
+            ctx.violations.append({"kind": "real-kernel", "why": why, "case": {"client": True, "round": i}})
+            break
+    return {"real_kernel_rounds": done, "real_kernel_skipped": skipped}
